@@ -89,7 +89,9 @@ fn zero(t: &Unifiable) -> Unifiable { t.clone() }
 
 pub struct Gen<'a> { pub r: &'a mut Rng, pub depth: usize }
 
-const ATOMS: [&str; 13] = ["a", "b", "abc", "Hello World", "x1", "noun_phrase", "Zoë", "über", "10:30-11:00", "3:2", "re-read", "todo: re-read", "a:b-c"];
+// (the last five: atoms made only of numerals that are not ASCII digits, seeded change C19r9: `char::is_numeric` as the digit test)
+const ATOMS: [&str; 18] = ["a", "b", "abc", "Hello World", "x1", "noun_phrase", "Zoë", "über", "10:30-11:00", "3:2", "re-read", "todo: re-read", "a:b-c",
+                           "２０２３", "½", "①", "Ⅳ", "٣"];
 const VARS: [&str; 5] = ["$X", "$Y", "$Z", "$Head", "$T"];
 
 impl<'a> Gen<'a> {
@@ -377,6 +379,25 @@ pub fn run_exhaustive_strings(out: &mut Out, cfg: &Cfg, maxlen: usize, shard: us
     }
 }
 
+/// all sequences of up to `maxlen` TOKENS (not characters) written between the brackets of a list: bars, commas, blanks, quotes,
+/// an atom and a variable — long enough for a tail variable with quotes after a missing element (`[| $X""]`, seeded change
+/// C18r9: the quotes of the tail carried over to an empty element) — as a list, as a term, and inside a complex term
+pub fn run_exhaustive_list_tokens(out: &mut Out, cfg: &Cfg, maxlen: usize, shard: usize, nshards: usize) {
+    let alpha: Vec<&str> = vec!["|", ",", " ", "\"", "a", "$X"];
+    let mut idx = 0usize;
+    for len in 0..=maxlen {
+        let total = alpha.len().pow(len as u32);
+        for code in 0..total {
+            idx += 1; if idx % nshards != shard { continue; }
+            let mut c = code; let mut s = String::new();
+            for _ in 0..len { s.push_str(alpha[c % alpha.len()]); c /= alpha.len(); }
+            emit_parse(out, cfg, "list", &format!("[{}]", s), None);
+            emit_parse(out, cfg, "term", &format!("[{}]", s), None);
+            emit_parse(out, cfg, "complex", &format!("f([{}])", s), None);
+        }
+    }
+}
+
 // --------------------------------------------------------------------- C20: contexts
 
 pub fn run_contexts(out: &mut Out, cfg: &Cfg, seed: u64, n: usize) {
@@ -500,6 +521,13 @@ pub fn run_reader(out: &mut Out, cfg: &Cfg, seed: u64, n: usize) {
         for _ in 0..nrules { let mut g = Gen{r: &mut r, depth: 2}; texts.push(g.rule().0); }
         // comment characters inside a list that is not inside parentheses
         if r.chance(1, 3) { texts.insert(r.below(texts.len() + 1), "channels($C) :- $C = [general, #random, %dev, a//b, announcements].".to_string()); }
+        // floats written without an integer part, as infix operands outside parentheses (seeded change C21r9: a period
+        // counted as a decimal point only between two digits)
+        if r.chance(1, 3) {
+            let t = *r.pick(&["half($X) :- $X = .5.", "small($X) :- $X < .25, $X >= .05.", "scale($X, $Y) :- $Y = $X * .5.",
+                              "near($X) :- $X > -.5, $X < .5.", "rate(.125)."]);
+            texts.insert(r.below(texts.len() + 1), t.to_string());
+        }
         // layout: break lines after the documented continuation characters outside brackets, indent, blank lines, comments
         let mut file = String::new();
         for t in &texts {
